@@ -90,9 +90,13 @@ impl Options {
 ///
 /// This will block until the compactor is fully finished.
 pub fn do_compaction(opts: &Options) -> crate::Result<()> {
+    #[cfg(feature = "verif_hooks")]
+    crate::verif_hooks::before_lock(crate::verif_hooks::LockId::CompactionState, crate::verif_hooks::Mode::Lock);
     #[expect(clippy::expect_used, reason = "lock is expected to not be poisoned")]
     let compaction_state = opts.compaction_state.lock().expect("lock is poisoned");
 
+    #[cfg(feature = "verif_hooks")]
+    crate::verif_hooks::before_lock(crate::verif_hooks::LockId::VersionHistory, crate::verif_hooks::Mode::Read);
     #[expect(clippy::expect_used, reason = "lock is expected to not be poisoned")]
     let version_history_lock = opts.version_history.read().expect("lock is poisoned");
 
@@ -186,6 +190,8 @@ fn move_tables(
     opts: &Options,
     payload: &CompactionPayload,
 ) -> crate::Result<()> {
+    #[cfg(feature = "verif_hooks")]
+    crate::verif_hooks::before_lock(crate::verif_hooks::LockId::VersionHistory, crate::verif_hooks::Mode::Write);
     #[expect(clippy::expect_used, reason = "lock is expected to not be poisoned")]
     let mut version_history_lock = opts.version_history.write().expect("lock is poisoned");
 
@@ -316,6 +322,8 @@ fn hidden_guard<T>(
         log::error!("Compaction failed: {e:?}");
 
         // IMPORTANT: We need to show tables again on error
+        #[cfg(feature = "verif_hooks")]
+        crate::verif_hooks::before_lock(crate::verif_hooks::LockId::CompactionState, crate::verif_hooks::Mode::Lock);
         #[expect(clippy::expect_used, reason = "lock is expected to not be poisoned")]
         let mut compaction_state = opts.compaction_state.lock().expect("lock is poisoned");
 
@@ -506,10 +514,14 @@ fn merge_tables(
         filter.finish();
     }
 
+    #[cfg(feature = "verif_hooks")]
+    crate::verif_hooks::before_lock(crate::verif_hooks::LockId::CompactionState, crate::verif_hooks::Mode::Lock);
     #[expect(clippy::expect_used, reason = "lock is expected to not be poisoned")]
     let mut compaction_state = opts.compaction_state.lock().expect("lock is poisoned");
 
     log::trace!("Acquiring super version write lock");
+    #[cfg(feature = "verif_hooks")]
+    crate::verif_hooks::before_lock(crate::verif_hooks::LockId::VersionHistory, crate::verif_hooks::Mode::Write);
     #[expect(clippy::expect_used, reason = "lock is expected to not be poisoned")]
     let mut version_history_lock = opts.version_history.write().expect("lock is poisoned");
     log::trace!("Acquired super version write lock");
@@ -572,6 +584,8 @@ fn drop_tables(
     opts: &Options,
     ids_to_drop: &[TableId],
 ) -> crate::Result<()> {
+    #[cfg(feature = "verif_hooks")]
+    crate::verif_hooks::before_lock(crate::verif_hooks::LockId::VersionHistory, crate::verif_hooks::Mode::Write);
     #[expect(clippy::expect_used, reason = "lock is expected to not be poisoned")]
     let mut version_history_lock = opts.version_history.write().expect("lock is poisoned");
 
